@@ -8,7 +8,7 @@
   attempt, then the swapped one) for any mix of stub and user operands.
   `onSpread` is `ProceduralResolver.on_spread` (reflections.py:722-723).
 -/
-import Tranp.Model.Infer
+import Tranp.Model.InferSpec
 
 namespace Tranp.Infer
 open Tranp Tranp.Generated
@@ -158,6 +158,22 @@ def pyUserChainTy (ct : ClassTable) : Ty → List (BOp × Ty) → Option Ty
      | some t => pyUserChainTy ct t rest
      | none => none)
   | _, _ => none
+
+/-- CPython evaluates `x op y` for an instance `x` of a user class as `type(x).<dunder>(x, y)`, found through the MRO (`World.call`);
+    the operand's class is asked first only for a reflected method, which the classes of this model do not declare for class operands -/
+def evalUserOp (W : World) (x : Val) (op : BOp) (y : Val) : Except Err Val :=
+  match lookup op.token Dunder.operators with
+  | none => .error .typeErr
+  | some d => W.call x d [y]
+
+/-- the class table of corpus/C03/44-witness-operator-operand-indirect-subclass.json: `Num.__add__(other: Num) -> Num`,
+    `Big(Num).__add__(other: Num) -> Big`, `Big2(Big)` -/
+def opWitness : ClassTable × OpParams :=
+  let add : Str := ['_', '_', 'a', 'd', 'd', '_', '_']
+  let num : Str := ['N', 'u', 'm']
+  let big : Str := ['B', 'i', 'g']
+  ([⟨num, [], [⟨add, .method, .cls num .nil⟩]⟩, ⟨big, [num], [⟨add, .method, .cls big .nil⟩]⟩, ⟨['B', 'i', 'g', '2'], [big], []⟩],
+   [((num, add), .cls num .nil), ((big, add), .cls num .nil)])
 
 /-! ## spread items -/
 
